@@ -222,7 +222,9 @@ func (tds *Conn) ReadFrom() {
 		packet := &Packet{}
 		_, err := packet.ReadFrom(tds.ctx, tds.conn, time.Duration(tds.info.PacketReadTimeout)*time.Second)
 		if err != nil && !errors.Is(err, io.EOF) {
-			tds.errCh <- fmt.Errorf("error reading packet: %w", err)
+			if !tds.queueError(fmt.Errorf("error reading packet: %w", err)) {
+				return
+			}
 			continue
 		}
 
@@ -230,7 +232,9 @@ func (tds *Conn) ReadFrom() {
 		tdsChan, ok := tds.tdsChannels[int(packet.Header.Channel)]
 		tds.tdsChannelsLock.RUnlock()
 		if !ok {
-			tds.errCh <- fmt.Errorf("received packet for invalid channel %d", packet.Header.Channel)
+			if !tds.queueError(fmt.Errorf("received packet for invalid channel %d", packet.Header.Channel)) {
+				return
+			}
 			continue
 		}
 
@@ -244,9 +248,22 @@ func (tds *Conn) ReadFrom() {
 			// waiting for packages that will never arrive. Further
 			// reads keep reporting the closed connection, as they do
 			// when the EOF arrives on its own.
-			tds.errCh <- fmt.Errorf("error reading packet: %w", err)
+			if !tds.queueError(fmt.Errorf("error reading packet: %w", err)) {
+				return
+			}
 			continue
 		}
+	}
+}
+
+// queueError records an error for the consumers. It returns false if
+// the connection was closed while the error queue was full.
+func (tds *Conn) queueError(err error) bool {
+	select {
+	case tds.errCh <- err:
+		return true
+	case <-tds.ctx.Done():
+		return false
 	}
 }
 
